@@ -2,7 +2,7 @@
    Property theorems only; each is closed by a lemma from C19/*.v. *)
 From Coq Require Import ZArith String List Bool Permutation Lia.
 Import ListNotations.
-From Osmo Require Import C17.Model C19.Perm C19.Sites C19.SiteTypes C19.Caches Gen.C19_sites Gen.C19_caches C19.Classify C19.Genesis.
+From Osmo Require Import C17.Model C19.Perm C19.Sites C19.SiteTypes C19.Caches Gen.C19_sites Gen.C19_caches C19.Classify C19.Genesis C19.LockupShapeTypes Gen.C19_lockup_shape C19.LockupGenesis.
 Open Scope Z_scope.
 
 (* ------------------------------------------------------------------------------------------------------------
@@ -137,6 +137,33 @@ Theorem C19_export_import_partial :
 Proof. split; [exact epochs_run_import_export|exact krun_import_export]. Qed.
 Print Assumptions C19_export_import_partial.
 
+(* x/lockup InitGenesis as written (InitializeAllLocks + InitializeAllSyntheticLocks; the duration expressions that key the
+   map read / write / literal are regenerated from lock.go on every run): after import (export s), for every denom - native
+   or synthetic - and every duration d, the accumulation from d up is the sum over the exported locks / synthetic locks of
+   that denom with duration >= d *)
+Theorem C19_lockup_import_accumulation : forall g t, import_lockup (export_lockup g) = Some t ->
+  forall dn d, tree_acc t dn d = expected g dn d.
+Proof. exact lockup_import_accumulation. Qed.
+Print Assumptions C19_lockup_import_accumulation.
+
+(* the shape of the Go code the previous theorem is about *)
+Theorem C19_lockup_import_shape :
+  locks_read_key = KUnder /\ locks_write_key = KUnder /\ locks_init_key = KUnder /\
+  synth_read_key = KSynth /\ synth_write_key = KSynth /\ synth_init_key = KSynth /\
+  locks_denom_ok = true /\ locks_adds_found = true /\ synth_denom_ok = true /\ synth_adds_found = true.
+Proof. exact lockup_shape_ok. Qed.
+Print Assumptions C19_lockup_import_shape.
+
+(* the RUNNING chain's incremental bookkeeping does not keep that equation (finding F19-17): CreateSyntheticLockup adds under
+   the synthetic lock's duration, DeleteSyntheticLockup subtracts under the underlying lock's duration *)
+Theorem C19_lockup_running_accumulation_refuted :
+  exists (l : plock) (s : slock) (amt dn d : Z) (t : tree),
+    let running := delete_synthetic (create_synthetic [] l s amt) l s amt in
+    let g := mkG [l] [] in
+    import_lockup (export_lockup g) = Some t /\ tree_acc t dn d = expected g dn d /\ tree_acc running dn d <> expected g dn d.
+Proof. exact running_accumulation_refuted. Qed.
+Print Assumptions C19_lockup_running_accumulation_refuted.
+
 (* the epochs round trip is not exact (finding F19-2): the start height is overwritten at import *)
 Theorem C19_epochs_roundtrip_exact_refuted :
   exists h t s, ids_distinct s /\ start_set s /\ import_epochs h t (export_epochs s) <> Some s.
@@ -164,6 +191,13 @@ Example C19_keyed_module_nonvacuous :
   s = mkK [(1, 6); (3, 1)] 3 7 /\ kimport (kexport s) = s /\
   snd (krun (kimport (kexport s)) [KCreate 4; KDelete 2]) = [KOk 4; KErr].
 Proof. repeat split; vm_compute; reflexivity. Qed.
+
+(* three locks of one LP denom (100/200/400) superfluid-delegated to one validator, underlying locks longer than the synthetic
+   ones: the import reports 700 for the synthetic denom (the seeded fault C19c made it 400) *)
+Example C19_lockup_import_nonvacuous :
+  let g := mkG [mkL 1 30 [(7, 100)]; mkL 2 30 [(7, 200)]; mkL 3 30 [(7, 400)]] [mkSL 1 9 20; mkSL 2 9 20; mkSL 3 9 20] in
+  exists t, import_lockup (export_lockup g) = Some t /\ tree_acc t 9 20 = 700 /\ tree_acc t 9 21 = 0 /\ tree_acc t 7 0 = 700.
+Proof. eexists; split; [vm_compute; reflexivity|]. repeat split; vm_compute; reflexivity. Qed.
 
 Example C19_epochs_nonvacuous :
   import_epochs 21 1000 (export_epochs [mkE 1 100 10 3 120 true 12; mkE 2 100 70 1 100 true 1]) =
